@@ -772,6 +772,10 @@ def execute(sim, scn):
                         violation("C20/failed-update-applies-params", lookup=kind, t=t, query=q,
                                   registration=reg.describe(), extra=[extra[0], list(extra[1]), extra[2]])
                 for reg in dead:
+                    if not reg.deleted and any(reg.status(t, alt=alt) != "dead" and
+                                               extra in [e[:3] for e in res_entries(reg, alt=alt)] for alt in reg.alts):
+                        violation("C20/failed-update-applies-lt", lookup=kind, t=t, query=q,
+                                  registration=reg.describe(), extra=[extra[0], list(extra[1]), extra[2]])
                     if extra in [e[:3] for e in res_entries(reg)]:
                         violation(classify(reg, True, t, "C20/lookup-lists-dead-registration"), lookup=kind, t=t,
                                   query=q, registration=reg.describe(), extra=[extra[0], list(extra[1]), extra[2]])
